@@ -927,3 +927,12 @@ def case_del_slices():
     e = list(range(5))
     del e[-2:]
     return [a, b, c, d, e]
+
+
+def case_bisect():
+    import bisect
+    xs = [1, 4, 4, 9]
+    out = [bisect.bisect_left(xs, 4), bisect.bisect_right(xs, 4), bisect.bisect(xs, 0), bisect.bisect_left(xs, 10), bisect.bisect_left(xs, 4, 2)]
+    bisect.insort(xs, 5)
+    out.append(list(xs))
+    return out
